@@ -360,9 +360,11 @@ namespace adept {
       // location that is expecting the result of the assignment to
       // change the data in that location. We also require that the
       // RHS data would otherwise be lost (but it is not clear that
-      // this is necessary).
+      // this is necessary); a non-empty RHS without a Storage object
+      // points to memory it does not own (external or stack memory,
+      // a soft link or a slice of a FixedArray) so must be copied.
       if ((empty() || (storage_ && storage_->n_links() == 1))
-	  && (!rhs.storage() || rhs.storage()->n_links() == 1)) {
+	  && (rhs.empty() || (rhs.storage() && rhs.storage()->n_links() == 1))) {
 	// We still need to check that the dimensions match
 	if (empty() || internal::compatible(dimensions_, rhs.dimensions())) {
 	  swap(*this, rhs);
